@@ -7,6 +7,10 @@ spec/C19/BdProg.tla  : the program as a state machine over definitions and secti
  replay: a renderer prints each AST / program as BD text with MINIMAL parentheses according to the documented (C) operator
        precedence, the real BDParser + BootImageV21.load_from_config process it, the result is projected to command records
  TV  : TLC (BdTrace) re-executes the program on the state machine and compares every logged command / option / section id.
+spec/C19/BdSession.tla : histories of parse calls on ONE parser object (sequence of command files, NextFile resets every table; the sources are part of the state)
+ GEN : BdSessGen - exhaustive pairs of files over a menu of COLLIDING definitions (same name / id, other meaning; defined only earlier; only later) + simulated
+       longer sessions;  replay: one BDParser object parses (and the command builder builds) the files one after another, every file observed like a
+       single program plus the names of the tables its configuration shows;  TV: BdTrace (events NextFile, DefSource; End carries onames / snames / kbids).
 """
 import json
 import os
@@ -62,7 +66,7 @@ def render(hist, files, r):
     out, extern, src = [], [], {}
     # sources are definitions and must precede the sections
     for ev in hist:
-        if ev["ev"] == "Stmt" and ev["st"]["s"] == "load_file" and ev["st"]["via"] in ("source", "extern"):
+        if ev["ev"] == "Stmt" and ev["st"]["s"] == "load_file" and ev["st"]["via"] in ("source", "extern") and "src" not in ev["st"]:
             st = ev["st"]
             name = f"src{len(src)}"
             path = files(st["data"])
@@ -103,6 +107,15 @@ def render(hist, files, r):
         elif kind == "DefConst":
             open_("constants", "constants")
             out.append(f"{sep}{ev['n']} = {show(ev['e'], r=r)};")
+        elif kind == "DefSource":
+            # an explicit definition (sessions): the name stands for the file holding ev["d"], given as a path or as the k-th file of the command line
+            open_("sources", "sources")
+            path = files(ev["d"])
+            if ev["form"] == "extern":
+                extern.append(path)
+                out.append(f"{sep}{ev['n']} = extern({len(extern) - 1});")
+            else:
+                out.append(f'{sep}{ev["n"]} = "{path}";')
         elif kind == "DefKeyblob":
             close()
             num = (lambda v: hex(v) if r.random() < 0.7 else str(v))
@@ -178,7 +191,7 @@ def stmt_text(st, files, src, r):
     if s == "load_file":
         if st["via"] == "literal":
             return f'load {mem(st["mem"], r)}"{files(st["data"])}" > {show(st["addr"], r=r)};'
-        name = src[id(st)][0]
+        name = st["src"] if "src" in st else src[id(st)][0]
         return f"load {mem(st['mem'], r)}{name} > {show(st['addr'], r=r)};"
     if s in ("prog_pat", "prog_blob"):
         opt = r.choice(["ifr ", "fuse ", "@4 ", "@(2 + 2) "])
@@ -289,15 +302,31 @@ class Runner:
             self._files[key] = path
         return self._files[key]
 
-    def run(self, text, extern):
-        """-> ("ok", options, [(section uid, [command records])]) | ("spsdk-error", msg) | ("exc:<Type>", msg)"""
+    def run(self, text, extern, parser=None):
+        """-> ("ok", options, [(section uid, [command records])], image, configuration) | ("spsdk-error", msg) | ("exc:<Type>", msg)
+        parser: the BDParser object to use (sessions: ONE object for several command files); a fresh one otherwise."""
+        return self.build(self.parse(text, extern, parser))
+
+    def parse(self, text, extern, parser=None):
+        """-> ("conf", configuration) | ("spsdk-error", msg) | ("exc:<Type>", msg)"""
         try:
-            conf = self.BDParser().parse(text=text, extern=extern)
+            conf = (parser or self.BDParser()).parse(text=text, extern=extern)
             if conf is None:
                 return ("spsdk-error", "parser returned None")
+            return ("conf", conf)
+        except self.SPSDKError as e:
+            return ("spsdk-error", str(e)[:300])
+        except Exception as e:  # noqa: BLE001
+            return (f"exc:{type(e).__name__}", str(e)[:300])
+
+    def build(self, parsed):
+        if parsed[0] != "conf":
+            return parsed
+        conf = parsed[1]
+        try:
             sb = self._load(conf)
             secs = [(sec.uid, [project(c) for c in sec]) for sec in sb]
-            return ("ok", conf.get("options", {}), secs, sb)
+            return ("ok", conf.get("options", {}), secs, sb, conf)
         except self.SPSDKError as e:
             return ("spsdk-error", str(e)[:300])
         except Exception as e:  # noqa: BLE001
@@ -336,9 +365,14 @@ def errrec(what):
     return {"t": what, "a": 0, "n": 0, "f": 0, "m": 0, "x": 0, "s": -1, "d": []}
 
 
-def observe_prog(runner, hist, r, tid):
-    text, extern = render(hist, runner.files, r)
-    res = runner.run(text, extern)
+def observe_prog(runner, hist, r, tid, pre=None, parser=None, sess=False):
+    """pre: (text, extern, result) when the program has been rendered / processed already; parser: the parser object to use (sessions);
+    sess: the End event also carries the names of the tables the configuration shows"""
+    if pre is not None:
+        text, extern, res = pre
+    else:
+        text, extern = render(hist, runner.files, r)
+        res = runner.run(text, extern, parser)
     evs = []
     stmts = [ev for ev in hist if ev["ev"] in ("Stmt", "Refuse")]
     per_stmt = None
@@ -348,7 +382,7 @@ def observe_prog(runner, hist, r, tid):
     else:
         # the whole program was refused: attribute the refusal by running every statement on its own (with all definitions)
         per_stmt = []
-        defs = [ev for ev in hist if ev["ev"] in ("DefOption", "DefOptionStr", "DefConst", "DefKeyblob")]
+        defs = [ev for ev in hist if ev["ev"] in ("DefOption", "DefOptionStr", "DefConst", "DefKeyblob", "DefSource")]
         for st in stmts:
             t1, x1 = render(defs + [{"ev": "BeginSection", "id": 0}, st], runner.files, r)
             r1 = runner.run(t1, x1)
@@ -390,9 +424,55 @@ def observe_prog(runner, hist, r, tid):
         iopts = [[n, int(opts[n]) if isinstance(opts.get(n), (int, bool)) else -999999] for n in last_unique(names_i)]
         sopts = [[n, opts[n] if isinstance(opts.get(n), str) else "<missing>"] for n in last_unique(names_s)]
         evs.append({"ev": "End", "iopts": iopts, "sopts": sopts, "ids": [u for u, _ in res[2]], "counts": [len(c) for _, c in res[2]]})
+        if sess:
+            conf = res[4]
+            srcs = conf.get("sources", {})
+            kbl = conf.get("keyblobs", [])
+            evs[-1].update(onames=sorted(str(n) for n in opts), snames=sorted(str(n) for n in srcs) if isinstance(srcs, dict) else ["<not a table>"],
+                           kbids=[kb.get("keyblob_id") if isinstance(kb, dict) and isinstance(kb.get("keyblob_id"), int) and -(2**31) < kb.get("keyblob_id") < 2**31
+                                  else -999999 for kb in kbl] if isinstance(kbl, list) else [-999999])
     else:
         evs.append({"ev": "End", "iopts": [], "sopts": [], "ids": [], "counts": [], "failed": res[0]})
+        if sess:
+            evs[-1].update(onames=[], snames=[], kbids=[])
     return {"id": tid, "ev": evs, "text": text, "result": res[0]}
+
+
+def split_files(hist):
+    """Session history -> the histories of its command files (separated by NextFile events)."""
+    files = [[]]
+    for ev in hist:
+        if ev["ev"] == "NextFile":
+            files.append([])
+        else:
+            files[-1].append(ev)
+    return files
+
+
+def observe_session(runner, hist, r, tid, mode):
+    """A session: ONE BDParser object gets the command files of the history one after another.
+    mode "interleaved": parse file 1, build its commands, parse file 2, build ... (a batch build);
+    mode "deferred":    parse all files first, then build the commands of every returned configuration (results are kept and used later)."""
+    files = split_files(hist)
+    parser = runner.BDParser()
+    obs = []
+    if mode == "deferred":
+        parsed = []
+        for fh in files:
+            text, extern = render(fh, runner.files, r)
+            parsed.append((text, extern, runner.parse(text, extern, parser)))
+        for k, (fh, (text, extern, p)) in enumerate(zip(files, parsed)):
+            obs.append(observe_prog(runner, fh, r, tid, pre=(text, extern, runner.build(p)), sess=True))
+    else:
+        for fh in files:
+            obs.append(observe_prog(runner, fh, r, tid, parser=parser, sess=True))
+    evs = []
+    for k, t in enumerate(obs):
+        if k:
+            evs.append({"ev": "NextFile"})
+        evs += t["ev"]
+    text = "".join(f"// ---- command file {k + 1} of {len(obs)} for ONE BDParser object ({mode})\n{t['text']}\n" for k, t in enumerate(obs))
+    return {"id": tid, "sess": mode, "ev": evs, "text": text, "result": "/".join(t["result"] for t in obs)}
 
 
 def owner_of(st, obs, kbdefs):
@@ -432,6 +512,14 @@ def owner_of(st, obs, kbdefs):
 
 
 def key_of(t, matched):
+    at = min(matched, len(t["ev"]) - 1)
+    if t.get("sess") and any(e["ev"] == "NextFile" for e in t["ev"][:at + 1]):
+        # rejected in a LATER file of a session: the class is "history of the parser object", then the clause of the single program
+        return "C19/session/" + _key_of(t, matched)[len("C19/"):]
+    return _key_of(t, matched)
+
+
+def _key_of(t, matched):
     ev = t["ev"][min(matched, len(t["ev"]) - 1)]
     k = ev["ev"]
     if k == "Expr":
@@ -464,6 +552,86 @@ def _ops(e):
     if k == "size":
         return ["." + e["sz"]]
     return []
+
+
+DEF_KINDS = ("DefOption", "DefOptionStr", "DefConst", "DefSource", "DefKeyblob")
+SESSION_CLASSES = {f"{k}/{c}" for k in DEF_KINDS for c in ("redefined-used", "earlier-only", "later-only")} | {"after-refused-file", "section-ids-differ", "source-name-as-constant"}
+
+
+def _meaning(ev):
+    return json.dumps({k: x for k, x in ev.items() if k not in ("ev", "form")}, sort_keys=True)
+
+
+def _table_key(ev):
+    return (ev["ev"], ev.get("n", ev.get("id")))
+
+
+def session_classes(sessions):
+    """Which classes of histories the generated sessions contain (machinery self-check: the quick tier reaches every class deterministically)."""
+    got = set()
+    for h in sessions:
+        files = split_files(h)
+        for a, b in zip(files, files[1:]):
+            da = {_table_key(e): e for e in a if e["ev"] in DEF_KINDS and not (e["ev"] == "DefOption" and e["n"] == "flags")}
+            db = {_table_key(e): e for e in b if e["ev"] in DEF_KINDS and not (e["ev"] == "DefOption" and e["n"] == "flags")}
+            stm = [e["st"] for e in b if e["ev"] == "Stmt"]
+            for key, e in db.items():
+                if key in da and _meaning(da[key]) != _meaning(e):
+                    used = (e["ev"] in ("DefOption", "DefOptionStr")
+                            or (e["ev"] == "DefConst" and any(e["n"] in json.dumps(st) for st in stm))
+                            or (e["ev"] == "DefSource" and any(st.get("src") == e["n"] for st in stm))
+                            or (e["ev"] == "DefKeyblob" and any(st.get("kb") == e["id"] for st in stm)))
+                    if used:
+                        got.add(f"{e['ev']}/redefined-used")
+                if key not in da and not any(k[0] == key[0] for k in da):
+                    got.add(f"{e['ev']}/later-only")
+            for key, e in da.items():
+                if not any(k[0] == key[0] for k in db):
+                    got.add(f"{e['ev']}/earlier-only")
+            if any(e["ev"] == "Refuse" for e in a) and not any(e["ev"] == "Refuse" for e in b):
+                got.add("after-refused-file")
+            if [e["id"] for e in a if e["ev"] == "BeginSection"] != [e["id"] for e in b if e["ev"] == "BeginSection"]:
+                got.add("section-ids-differ")
+            if any(e["ev"] == "DefSource" for e in a) and any(e["ev"] == "DefConst" and any(x["ev"] == "DefSource" and x["n"] == e["n"] for x in a) for e in b):
+                got.add("source-name-as-constant")
+    return got
+
+
+def session_canary():
+    """A fixed two-file session written by hand (it never passed through SPSDK) and copies of it with ONE observation of the second file replaced by what a
+    parser object that forgets to clean up would produce."""
+    lit = (lambda n: {"k": "lit", "v": n})
+    d1, d2 = [1, 2, 3, 4, 5], [200 - i for i in range(1, 17)]
+    kb1 = {"ev": "DefKeyblob", "id": 0, "lo": 4096, "hi": 6139, "key": "000102030405060708090A0B0C0D0E0F", "ctr": "0123456789ABCDEF"}
+    cmd = (lambda **kw: dict({"t": "?", "a": 0, "n": 0, "f": 0, "m": 0, "x": 0, "s": -1, "d": []}, **kw))
+
+    def file_(val, data, form, sec, kb, bn):
+        ld = {"s": "load_file", "addr": {"k": "ref", "n": "ca"}, "data": data, "mem": 0, "via": "source", "src": "sa"}
+        evs = [{"ev": "DefOption", "n": "flags", "e": lit(8)}] + ([{"ev": "DefOption", "n": "buildNumber", "e": lit(7)}] if bn else [])
+        evs += [{"ev": "DefConst", "n": "ca", "e": lit(val)}, {"ev": "DefSource", "n": "sa", "form": form, "d": data}] + ([kb] if kb else [])
+        evs += [{"ev": "BeginSection", "id": sec}, {"ev": "Stmt", "st": ld, "obs": cmd(t="load", a=val, n=len(data), d=data)},
+                {"ev": "End", "iopts": [["flags", 8]] + ([["buildNumber", 7]] if bn else []), "sopts": [], "ids": [sec], "counts": [1],
+                 "onames": ["buildNumber", "flags"] if bn else ["flags"], "snames": ["sa"], "kbids": [0] if kb else []}]
+        return evs
+
+    good = {"id": "sess-good", "sess": "interleaved", "ev": file_(4096, d1, "path", 0, kb1, True) + [{"ev": "NextFile"}] + file_(8192, d2, "extern", 5, None, False)}
+    out = [good]
+    k2 = len(good["ev"]) - 3      # BeginSection of the second file; +1 Stmt, +2 End
+
+    def variant(name, f):
+        t = json.loads(json.dumps(good))
+        t["id"] = name
+        f(t["ev"])
+        out.append(t)
+
+    variant("sess-bad-source", lambda ev: ev[k2 + 1]["obs"].update(n=len(d1), d=d1))                # the earlier file's image
+    variant("sess-bad-const", lambda ev: ev[k2 + 1]["obs"].update(a=4096))                           # the earlier file's constant
+    variant("sess-bad-snames", lambda ev: ev[k2 + 2].update(snames=["sa", "sb"]))
+    variant("sess-bad-onames", lambda ev: ev[k2 + 2].update(onames=["buildNumber", "flags"]))        # an option of the earlier file shows up
+    variant("sess-bad-kbids", lambda ev: ev[k2 + 2].update(kbids=[0]))                               # the earlier file's key blob
+    variant("sess-bad-sections", lambda ev: ev[k2 + 2].update(ids=[0, 5], counts=[1, 1]))            # the earlier file's section
+    variant("sess-bad-order", lambda ev: ev.pop(k2 - 5))                                             # End of the first file missing: NextFile before the result was observed
+    return out
 
 
 def run(tier):
@@ -518,25 +686,56 @@ def run(tier):
             (first if seen[k] <= 40 else rest).append(h)
         progs = first + rest[:max(0, 1500 - len(first))]
     allp = progs + progs2 + progs3
-    for h in allp:  # data files are created before forking so that every worker sees the same paths
+    # ---- sessions: several command files for ONE parser object (BdSession).  Exhaustive: all pairs of files over the menu of colliding definitions
+    # (both files define in the same table or in none); simulated: 3 files, several definitions, 2 sections, 2 statements
+    gs = tlc.mc("C19", "BdSessGen", "BdSessGen.cfg", env={"GEN_MAXFILES": 2, "GEN_MAXDEFS": 1, "GEN_MAXSTMTS": 1, "GEN_MAXSECS": 1}, workers=1, deadlock=False,
+                coverage=False, heap="4g", timeout=1200)
+    v.add_mc(gs)
+    sess = gs.json_prints()
+    reached = session_classes(sess)
+    missing = sorted(SESSION_CLASSES - reached)
+    if len(sess) < 200 or missing:
+        raise Machinery(f"session GEN emitted {len(sess)} sessions; classes not reached: {missing}")
+    gs2 = tlc.run("C19", "BdSessGen", "BdSessGen.cfg", env={"GEN_MAXFILES": 3, "GEN_MAXDEFS": 5, "GEN_MAXSTMTS": 2, "GEN_MAXSECS": 2, "GEN_WIDE": 1}, workers=1,
+                  deadlock=False, simulate=f"num={100 if tier == 'quick' else 1000}", depth=40, heap="4g", timeout=1200)
+    seen, sess2 = set(), []
+    for h in gs2.json_prints():       # in -simulate mode a finished history is printed once per evaluation of the action: keep one copy
+        k = json.dumps(h, sort_keys=True)
+        if k not in seen:
+            seen.add(k)
+            sess2.append(h)
+    if len(sess2) < 50:
+        raise Machinery(f"session GEN (simulate) emitted only {len(sess2)} sessions\n{gs2.out[-1500:]}")
+    r.shuffle(sess2)
+    sess2 = sess2[:100 if tier == "quick" else 2000]
+    alls = sess + sess2
+    for h in allp + alls:  # data files are created before forking so that every worker sees the same paths
         for ev in h:
             if ev["ev"] == "Stmt" and ev["st"]["s"] in ("load_file", "encrypt"):
                 runner.files(ev["st"]["data"])
+            elif ev["ev"] == "DefSource":
+                runner.files(ev["d"])
     ptraces = pmap(lambda ih: observe_prog(runner, ih[1], rng(PROP, "prog", ih[0]), 1000000 + ih[0]), list(enumerate(allp)))
     v.count(len(ptraces))
     say(f"[C19] {len(ptraces)} programs processed by the real parser and command builder ({v.timer.s()}s)")
-    for t in traces + ptraces:
+    # every second session keeps the parsed configurations and builds the commands afterwards (the order of the enumeration is fixed: both modes meet every class)
+    straces = pmap(lambda ih: observe_session(runner, ih[1], rng(PROP, "sess", ih[0]), 2000000 + ih[0], "deferred" if ih[0] % 2 else "interleaved"), list(enumerate(alls)))
+    v.count(len(straces))
+    nfiles = sum(len(split_files(h)) for h in alls)
+    say(f"[C19] {len(straces)} sessions ({nfiles} command files) processed by ONE parser object each ({v.timer.s()}s)")
+    for t in traces + ptraces + straces:
         if t["ev"][0].get("got", {}).get("k", "int") == "int":
             v.nontrivial(t["text"])
     v.sample({"text": traces[len(traces) // 2]["text"], "event": traces[len(traces) // 2]["ev"][0]})
     v.sample({"text": ptraces[-1]["text"], "events": ptraces[-1]["ev"]})
+    v.sample({"text": straces[len(sess) // 2]["text"], "events": straces[len(sess) // 2]["ev"]})
 
     # ---- canary
     good = {"id": "good", "ev": [{"ev": "Expr", "e": {"k": "bin", "op": "*", "l": {"k": "lit", "v": 3}, "r": {"k": "lit", "v": 5}}, "got": {"k": "int", "v": 15}}]}
     bad = {"id": "bad", "ev": [{"ev": "Expr", "e": {"k": "bin", "op": "*", "l": {"k": "lit", "v": 3}, "r": {"k": "lit", "v": 5}}, "got": {"k": "int", "v": -2}}]}
     # (good / bad are fixed observations that never passed through SPSDK; the program canary corrupts a real trace and only demands that the corrupted
     #  copy is rejected - whether the real trace itself is accepted is the business of the main run)
-    cand = next((t for t in ptraces if t["result"] == "ok" and t["ev"][-1]["ev"] == "End" and not _has_known(t)), None)
+    cand = next((t for t in ptraces if t["result"] == "ok" and t["ev"][-1]["ev"] == "End" and not _has_known(t) and any(e["ev"] == "Stmt" for e in t["ev"])), None)
     batch = [good, bad]
     if cand is not None:
         pg = json.loads(json.dumps(cand))
@@ -546,13 +745,17 @@ def run(tier):
         st = next(e for e in pb["ev"] if e["ev"] == "Stmt")
         st["obs"]["a"] += 4
         batch += [pg, pb]
+    batch += session_canary()
     rej, _ = tlc.tv("C19", "BdTrace", [_strip(x) for x in batch])
-    if "bad" not in rej or "good" in rej or (cand is not None and "prog-bad" not in rej):
+    want = {"bad", "sess-bad-source", "sess-bad-const", "sess-bad-snames", "sess-bad-onames", "sess-bad-kbids", "sess-bad-sections", "sess-bad-order"}
+    if not want <= set(rej) or "good" in rej or "sess-good" in rej or (cand is not None and "prog-bad" not in rej):
         raise Machinery(f"canary failed: rejected {sorted(rej)}")
-    v.extra["canary"] = f"corrupted expression value and corrupted command address rejected; rejected set {sorted(rej)}"
+    v.extra["canary"] = ("corrupted expression value and corrupted command address rejected; session: a later file that loads the earlier file's source, uses the earlier "
+                         "file's constant, shows a leaked source / option / key blob / section, or is parsed before the result of the earlier file was observed - all "
+                         f"rejected, the fixed two-file session accepted; rejected set {sorted(rej)}")
 
     # ---- TV
-    allt = traces + ptraces
+    allt = traces + ptraces + straces
     rej, res = tlc.tv("C19", "BdTrace", [_strip(t) for t in allt], heap="8g")
     v.traces(len(allt))
     by_id = {t["id"]: t for t in allt}
@@ -565,13 +768,20 @@ def run(tier):
 
     sys_sbload.run_lane(v, allp, tier, PROP)
 
-    v.cov["rule"] = ("expressions: all ASTs of depth <= 2 over 18 binary and 3 unary operators and a literal menu that lie in the asserted domain "
+    v.extra["sessions"] = {"exhaustive_pairs": len(sess), "simulated": len(sess2), "command_files": nfiles, "classes": sorted(reached)}
+    v.cov["rule"] = ("sessions: every pair of command files over a menu of colliding definitions (integer option, string option, constant, source, key blob: one name / id "
+                     "with two meanings; both files define in the same table or in none; every definition is used by a statement) given to ONE BDParser object, plus simulated "
+                     "sessions of 3 files; every file observed like a single program + the names of the tables its configuration shows; "
+                     "expressions: all ASTs of depth <= 2 over 18 binary and 3 unary operators and a literal menu that lie in the asserted domain "
                      "(TLC enumerates, each rendered with minimal parentheses and evaluated by the real parser); programs: every single-statement "
                      "program of the statement menu (quick: seeded subset of 1500) + simulated programs with up to 4 definitions, 3 sections, "
                      "3 statements each; non-trivial = accepted by the real parser; distinct by program text; system lane: a seeded subset of the programs "
                      "built into SB 2.1 files by SPSDK, sent with McuBoot.receive_sb_file to the device twin over both transports, the bytes the device holds "
                      "walked by the independent boot-ROM executor, the decoded sections / commands compared by TLC with the language semantics (SbLoadTrace)")
-    v.assumptions += ["operands stay below 2^31 (TLC integers); negative operands of / % << >> & | ^ and non-boolean operands of && || are outside the asserted domain",
+    v.assumptions += ["sessions: a BDParser object may be used for several command files (its parse() documents the clean-up 'before next parsing'); each file is a "
+                      "complete program; a name is defined once per FILE; a reference to a name the file itself does not define is not generated (the documentation does not "
+                      "say how it is refused)",
+                      "operands stay below 2^31 (TLC integers); negative operands of / % << >> & | ^ and non-boolean operands of && || are outside the asserted domain",
                       "the renderer (minimal parentheses by documented C precedence) is trusted",
                       "fill patterns are generated only where all readings agree (.b < 0x100, .h >= 0x100, .w >= 0x1000000)",
                       "memory options are written as @<id> or as the documented keyword (internal, qspi, semcnor, flexspinor, spinand, sdcard ...); the key-store "
@@ -584,6 +794,8 @@ def _has_known(t):
 
 
 def _strip(t):
+    if t.get("sess"):
+        return {"id": t["id"], "sess": t["sess"], "ev": t["ev"]}
     return {"id": t["id"], "ev": t["ev"]}
 
 
@@ -609,7 +821,13 @@ def replay(path):
         t2 = {"id": 0, "ev": [{"ev": "Expr", "e": t["ev"][0]["e"], "got": got}]}
     else:
         hist = [{k: x for k, x in e.items() if k != "obs"} for e in t["ev"] if e["ev"] not in ("End", "EndRefused")]
-        t2 = _strip(observe_prog(runner, hist, r, 0))
+        if t.get("sess"):
+            for e in hist:
+                if e["ev"] == "DefSource":
+                    runner.files(e["d"])
+            t2 = _strip(observe_session(runner, hist, r, 0, t["sess"]))
+        else:
+            t2 = _strip(observe_prog(runner, hist, r, 0))
     rej, _ = tlc.tv("C19", "BdTrace", [t2])
     say(json.dumps(t2)[:1000])
     if rej:
